@@ -101,7 +101,8 @@ class Env:
         d["p"] = H.veccat(H.P)
         d["pc"] = H.veccat([p[k] for p in H.P_control])
         d["pcp"] = H.veccat([p[j] for p in H.P_control_plus])
-        d["v"] = H.V if (H.V is not None and ca.MX(H.V).numel()) else None
+        nv = sum(self.spec.variables.get("", []))        # the user's own global variables come first;
+        d["v"] = ca.MX(H.V)[:nv] if nv else None          # a free T / t0 adds further ones behind them
         d["vc"] = H.veccat([v[k] for v in H.V_control])
         d["vcp"] = H.veccat([v[j] for v in H.V_control_plus])
         d["T"], d["t0"] = H.T, H.t0
